@@ -33,6 +33,8 @@ mod testonly;
 #[cfg(test)]
 mod tests;
 mod validator_addrs;
+#[cfg(era_consensus_verif)]
+pub mod verif;
 
 /// Info about a gossip connection.
 #[derive(Debug)]
